@@ -22,7 +22,8 @@ RULE = ("programs: trees of statements - with no_grad / with retain_grads (fresh
         "mode in force at entry.  non-trivial: nesting depth >= 2 mixing both context kinds, or an exit by "
         "exception, or a context object entered later than constructed / entered twice; distinct by program hash"
         " Round 4: contexts of different kinds that overlap without nesting (explicit __enter__/__exit__, generators suspended inside a with-block; exits in any order across kinds, by exception too) with mode probes after every event."
-        " Round 5: constructors (Tensor, tensor, Parameter, ones, zeros, arange, eye, *_like) x data kinds x dtype= casts with requires_grad=True, inside and outside no_grad.")
+        " Round 5: constructors (Tensor, tensor, Parameter, ones, zeros, arange, eye, *_like) x data kinds x dtype= casts with requires_grad=True, inside and outside no_grad."
+        " Round 7: rows obtained by iterating / unpacking / zip / builtin sum over a tensor carry the flags of x[i]; freeze()/zero_grad() never raise on trees holding non-float parameters.")
 ASSUMPTIONS = ["re-entering the SAME context object while it is already active is not generated (not claimed by the "
                "statement; PyTorch's own no_grad does not support it either)",
                "retention of intermediates is asserted only when creation and backward happen under the same "
